@@ -798,12 +798,14 @@ def collapse_unary_chains(tree, **params):
 def _uncollapse_unary_chains(tree):
     """Recursively uncollapse unary chains.
     """
-    unary = tree
+    top = None
     while tree.data['label'].find("+") > -1:
         # tree.parent -> tree -> c1 .. cn
         # tree.parent -> unary -> tree -> c1 .. cn
         ind = tree.data['label'].find("+")
         unary = trees.Tree(tree.data)
+        if top is None:
+            top = unary
         unary.data['label'] = tree.data['label'][:ind]
         tree.data['label'] = tree.data['label'][ind + 1:]
         if tree.parent is not None:
@@ -814,7 +816,7 @@ def _uncollapse_unary_chains(tree):
         tree.parent = unary
     for child in trees.children(tree):
         _uncollapse_unary_chains(child)
-    return unary
+    return top if top is not None else tree
 
 
 def uncollapse_unary_chains(tree, **params):
